@@ -606,7 +606,13 @@ func (r *Run) guardedBy(g guardSpec) {
 			if u.Scope == nil {
 				continue
 			}
-			addScope(u.Scope)
+			// synchronous closures (immediately invoked, stdlib callbacks) run under their
+			// parent's lock state: analyse them inline in the parent
+			sc := u.Scope
+			for sc.Lit != nil && sc.Parent != nil && !r.litEscapes(sc) {
+				sc = sc.Parent
+			}
+			addScope(sc)
 		}
 	}
 	lockM := map[string]int32{"Lock": lkWrite, "RLock": lkRead}
@@ -653,9 +659,10 @@ func (r *Run) guardedBy(g guardSpec) {
 			uu := u
 			spec := &pathsim.Spec{Init: init, Watch: watch,
 				InlineLit: func(c *pathsim.Ctx, lit *ast.FuncLit, parent ast.Node) bool {
-					// immediately invoked literals run under the caller's lock state
-					call, ok := parent.(*ast.CallExpr)
-					return ok && ast.Unparen(call.Fun) == ast.Expr(lit)
+					// immediately invoked literals and synchronous callbacks run under the
+					// caller's lock state
+					sc := r.P.ScopeAt(lit.Body.Lbrace + 1)
+					return sc != nil && sc.Lit == lit && !r.litEscapes(sc)
 				},
 				Step: func(c *pathsim.Ctx, s pathsim.State, ev *pathsim.Event) []pathsim.State {
 					if m, ok := isMutexCall(c, ev); ok {
